@@ -16,8 +16,10 @@
  *   request log: g<l>,<c> | p<delta><final> | t<hex of str[0..len)> | e<count>,<moveend>, separated by ';'
  *   cell: <_ blank | ~ second half of a wide character | hex bytes>{pen}w<times written>
  *
- * The grid is the C twin of `Tickit.RBFlush.GridTerm` (lean/Tickit/Model/RBFlush.lean): an unbounded plane seen
- * through the window (no wrap, no clamping), UTF-8 decoded as the library's next_utf8 does, widths from the
+ * The grid is the C twin of `Tickit.RBFlush.GridTerm` (lean/Tickit/Model/RBFlush.lean): TC columns wide with the VT
+ * behaviour at the right edge (printing into the last column leaves the pending-wrap state col == cols; the next
+ * character wraps to column 0 of the next line; goto clamps the column and ends pending wrap; erasech is ECH + CUF),
+ * unbounded downwards (no scrolling), UTF-8 decoded as the library's next_utf8 does, widths from the
  * library's tickit_utf8_wcwidth, zero-width characters attached to the last character printed.
  */
 #define HCOMMON_MAIN
@@ -113,6 +115,12 @@ static void cell_write(GridDrv *g, int l, int c, int kind, const unsigned char *
 
 static void put_glyph(GridDrv *g, const unsigned char *bs, size_t n, int w)
 {
+  /* DEC autowrap: a character that does not fit - in particular in the pending-wrap state col == cols - goes
+   * to column 0 of the next line (the plane is unbounded downwards: no scrolling) */
+  if(g->col + w > g->cols) {
+    g->line++;
+    g->col = 0;
+  }
   for(int k = 0; k < w; k++)
     cell_write(g, g->line, g->col + k, k == 0 ? 1 : 2, bs, n);
   g->has_last = 1; g->last_l = g->line; g->last_c = g->col;
@@ -190,6 +198,9 @@ static bool gd_goto_abs(TickitTermDriver *ttd, int line, int col)
   GridDrv *g = (GridDrv *)ttd;
   log_sep(g);
   fprintf(g->logfh, "g%d,%d", line, col);
+  /* the column is clamped to the screen; every cursor movement ends the pending-wrap state */
+  if(col > g->cols - 1) col = g->cols - 1;
+  if(col < 0) col = 0;
   g->line = line; g->col = col; g->has_last = 0;
   return true;
 }
@@ -212,12 +223,15 @@ static bool gd_erasech(TickitTermDriver *ttd, int count, TickitMaybeBool moveend
   log_sep(g);
   fprintf(g->logfh, "e%d,%d", count, (int)moveend);
   if(count < 1) return true;
-  for(int k = 0; k < count; k++)
-    cell_write(g, g->line, g->col + k, 0, NULL, 0);
+  /* ECH (+ CUF): in the pending-wrap state the cursor is on the last column; nothing is blanked past the edge */
+  int start = g->col < g->cols - 1 ? g->col : g->cols - 1;
+  for(int k = 0; k < count && start + k < g->cols; k++)
+    cell_write(g, g->line, start + k, 0, NULL, 0);
   g->has_last = 0;
-  if(moveend == TICKIT_YES) g->col += count;
+  int moved = start + count < g->cols - 1 ? start + count : g->cols - 1;
+  if(moveend == TICKIT_YES) g->col = moved;
   else if(moveend == TICKIT_MAYBE) {
-    if((g->oracle >> (g->nmaybe % 31)) & 1) g->col += count;
+    if((g->oracle >> (g->nmaybe % 31)) & 1) g->col = moved;
     g->nmaybe++;
   }
   return true;
@@ -356,6 +370,7 @@ static void engine_op(int argc, char **argv)
     });
     if(!tt) { obs("bad-op"); gd_destroy(&g->super); return; }
     gd = g;
+    tickit_term_set_size(tt, tl, tc);   /* what tickit_term_get_size() reports */
     if(strcmp(argv[5], "NONE") != 0) {
       TickitPen *pen = parse_pen(argv[5]);
       if(pen) {
